@@ -32,6 +32,28 @@ def generate(rng, tier):
                     FL.force_uncertainties(rng, c, dgr=(rep in (0, 1)), dy=(rep in (0, 2)))
                 cases.append(c)
         rng.random()
+    # a single-precision r grid and a cutoff typed as the decimal value of one of its points (whose float32 value lies just above it)
+    state = rng.getstate()
+    for R in range(3):
+        for Q in range(4):
+            rng.setstate(state)
+            c = FL.gen_filter_case(rng, tier, R, Q, channel=2)
+            n_r = max(16, len(c["r"]))
+            r32 = [float(np.float32(0.05 * (k + 1))) for k in range(n_r)]
+            cands = [round(0.05 * (k + 1), 2) for k in range(2, n_r - 2) if float(np.float32(round(0.05 * (k + 1), 2))) > round(0.05 * (k + 1), 2)]
+            if not cands:
+                continue
+            ref = FL.gen_filter_case(rng, tier, R, Q, channel=2)      # fresh physical data on the new grid
+            g = [0.3 + 0.5 * v + 0.4 * np.cos(2.5 * v) * np.exp(-v / 2.0) + 0.01 * ((k * 7) % 5) for k, v in enumerate(r32)]
+            c["r"] = r32
+            c["common"]["g"] = [float(v) for v in g]
+            c["gr"] = [float(v) for v in L.from_base(1, R, np.array(r32), np.array(g), c["mat"])]
+            c["dgr"] = None
+            c["common"]["dg"] = None
+            c["cutoff"] = cands[-1]
+            c["r_f32"] = True
+            c["desc"].update({"r_grid": "float32", "cutoff": "decimal value of a grid point", "n_r": n_r, "dgr": "none"})
+            cases.append(c)
     # r > 0 and q > 0 so that conversions are invertible
     for c in cases:
         if c["r"][0] == 0.0:
@@ -88,6 +110,7 @@ def oracle(pystog, case, res):
     second = fvar(arrs[0], arrs[1], arrs[2], arrs[3], case["cutoff"], da, db, **kwv)
     if not all(np.array_equal(np.asarray(u, float), np.asarray(w, float), equal_nan=True) for u, w in zip(first, second)):
         return "%s: calling twice with the same arrays gives different results (the data or uncertainties given were altered)" % case["desc"]["variant"]
+    tolf = 1e4 if case.get("r_f32") else 1.0      # single-precision abscissae: the variants agree to single precision only
     mine = back(case, o)
     cm = case["common"]
     ref_case = dict(case, R=0, Q=1, gr=cm["g"], y=cm["f"], dgr=cm["dg"], dy=cm["df"])
@@ -106,16 +129,16 @@ def oracle(pystog, case, res):
                     case["desc"]["variant"], name, o[name][~qpos].tolist()[:3])
     for name in ("y_ft", "y"):
         sel_q = qpos if (len(mine[name]) == len(qpos) and case["Q"] != 1) else slice(None)
-        if (np.abs(mine[name] - ref[name])[sel_q] > 1e-8 * mag).any():
+        if (np.abs(mine[name] - ref[name])[sel_q] > 1e-8 * tolf * mag).any():
             return "%s: %s differs from g_using_F after conversion" % (case["desc"]["variant"], name)
     gmag = 1 + np.abs(ref["g"] - 1).max()
     pos = o["r"] > 0.05
-    if (np.abs(mine["g"] - ref["g"])[pos] > 1e-7 * gmag * (1 + 1 / o["r"][pos])).any():
+    if (np.abs(mine["g"] - ref["g"])[pos] > 1e-7 * tolf * gmag * (1 + 1 / o["r"][pos])).any():
         return "%s: filtered real-space function differs from g_using_F after conversion" % case["desc"]["variant"]
     for name, tol in (("dy_ft", 1e-8), ("dy", 1e-8), ("dg", 1e-7)):
         a, b = mine[name], ref[name]
         sel = pos if name == "dg" else (qpos if (len(a) == len(qpos) and case["Q"] != 1) else slice(None))
         emag = np.abs(b).max() + 1e-300
-        if (np.abs(a - b)[sel] > tol * (emag + np.abs(b)[sel])).any():
+        if (np.abs(a - b)[sel] > tol * tolf * (emag + np.abs(b)[sel])).any():
             return "%s: uncertainty output %s differs from g_using_F after conversion (input uncertainty dropped or altered)" % (case["desc"]["variant"], name)
     return None
